@@ -1,5 +1,5 @@
 """C17 - maps behave like a dictionary; notifiers fire once."""
-from engine.qb import (AnalysisBroken, estr, unwrap, cval, walk, last_field, fields_of, callee_of, mentions_var,
+from engine.qb import (cmp_forms, AnalysisBroken, estr, unwrap, cval, walk, last_field, fields_of, callee_of, mentions_var,
                        atoms_of, root_var)
 from rules.common import field_is, has_call, derives, value_sources, macro_named
 
@@ -278,9 +278,12 @@ def r7(ctx):
     for b in f.blocks.values():
         if b.cond is None:
             continue
-        c = unwrap(b.cond)
-        if c.get('k') == 'bin' and c['op'] in ('<', '>', '==', '<=', '>=', '!=') and cval(unwrap(c['r'])) == 0:
-            l = unwrap(c['l'])
+        forms = [(l, o, r) for (l, o, r) in cmp_forms(b.cond) if cval(unwrap(r)) == 0]
+        cu = unwrap(b.cond)
+        if not forms and cu.get('k') == 'un' and cu['op'] == '!':
+            forms = [(cu['e'], '==', None)]         # !x  is  x == 0
+        if forms:
+            l = unwrap(forms[0][0])
             if l.get('k') == 'var' and l['n'] not in (nodep, keyp):
                 decided += 1
                 srcs, entry = value_sources(f, l, f.end_of(b.id))
@@ -295,8 +298,12 @@ def r7(ctx):
     for nm in ('hashtable_lookup', 'hashtable_put'):
         g = prog.fn(nm)
         conds = [b for b in g.blocks.values() if b.cond is not None and has_call(b.cond, 'strcmp')]
-        ok = bool(conds) and all(unwrap(b.cond).get('k') == 'bin' and unwrap(b.cond)['op'] == '==' and cval(unwrap(unwrap(b.cond)['r'])) == 0 and
-                                 callee_of(unwrap(unwrap(b.cond)['l'])) == 'strcmp' for b in conds)
+        def eq0(c):
+            u = unwrap(c)
+            if u.get('k') == 'un' and u['op'] == '!' and callee_of(unwrap(u['e'])) == 'strcmp':
+                return True
+            return any(o == '==' and cval(unwrap(r)) == 0 and callee_of(unwrap(l)) == 'strcmp' for (l, o, r) in cmp_forms(c))
+        ok = bool(conds) and all(eq0(b.cond) for b in conds)
         ctx.check('R7', '%s:match-is-strcmp-equal' % nm, ok, g, '%s matches on strcmp(...) == 0' % nm, '%s does not match on full-key equality' % nm)
     t = prog.fn('trie_lookup')
     # the exact-match test: a node is only returned for exact_match when the whole segment was consumed
